@@ -261,7 +261,9 @@ let register_all register =
   register "histC01" (s_hist Judge.judge_c01);
   register "histC03" (s_hist Judge.judge_c03);
   register "histC07" (s_hist Judge.judge_c07);
-  List.iter (fun n -> register ("hist" ^ n) (s_hist no_judge)) ["C02"; "C04"; "C05"; "C06"; "C08"; "C09"];
+  register "histC04" (s_hist Judge.judge_c04);
+  register "histC05" (s_hist Judge.judge_c05);
+  List.iter (fun n -> register ("hist" ^ n) (s_hist no_judge)) ["C02"; "C06"; "C08"; "C09"];
   register "phy" s_phy;
   register "phyenc" s_phyenc;
   register "maccmd" s_maccmd;
